@@ -10,6 +10,11 @@ Ltac Zify.zify_post_hook ::= Z.div_mod_to_equations.
 Definition byte_of_N (n:N) : byte :=
   match Byte.of_N (n mod 256) with Some b => b | None => x00 end.
 
+(* the Decoder of the resampler the harness instantiates the library with (BytesResampler of SCRIPT.md): one u64 per payload
+   byte; bytes below 128 as they are, bytes from 128 on with their lowest bit cleared - so that decode followed by encode is
+   NOT the identity on every payload (a cache line of a bucket of one line need not equal that line) *)
+Definition rs_dec (b:byte) : N := let n := Byte.to_N b in if (n <? 128)%N then n else (n / 2 * 2)%N.
+
 Lemma to_N_byte_of_N n : Byte.to_N (byte_of_N n) = n mod 256.
 Proof.
   unfold byte_of_N. destruct (Byte.of_N (n mod 256)) eqn:E.
